@@ -764,6 +764,9 @@ func (f *frame) enterLoop(li *loopInfo, reach Term, cur *State, phiPre map[*ssa.
 			cur.Alloc = vc.declare("alloc", SInt)
 			vc.assume(True, Ge(cur.Alloc, old))
 		}
+		for _, k := range ks {
+			vc.heapWF(cur.H[k], k, cur.Alloc.S)
+		}
 		f.loopFrameAssume(li, ks, cur, reach)
 	}
 	li.phiHead = map[*ssa.Phi]Term{}
